@@ -28,7 +28,7 @@ ASSUMPTIONS = ['whether the callee name is looked up before or after its argumen
 REAL = ['smartquery.*']
 STUB = ['host probes t / boom (scripted, with a fault plan)']
 REACH_PROBES = ('lazy_and', 'lazy_or', 'if', 'probe_raise_fired', 'slice', 'dict_literal', 'setitem', 'setitemop',
-                'short', 'lambda_body_probe', 'literal_leaf_next_to_lazy', 'call_args', 'del', 'lamcall', 'undefined_callee', 'same_operand_twice')
+                'short', 'lambda_body_probe', 'literal_leaf_next_to_lazy', 'call_args', 'del', 'lamcall', 'undefined_callee', 'same_operand_twice', 'lazy_right_changes_left')
 
 TRUTHY = {'num': [['num', '1'], ['num', '2.5'], ['neg', ['num', '3']]], 'str': [['str', 'a'], ['str', '0']],
           'bool': [['bool', True]], 'list': [['list', [['num', '1']]], ['list', [['list', []]]]], 'none': [['num', '7']]}
@@ -85,7 +85,15 @@ class Shape:
         if d <= 0 or r.random() < 0.2 or self.size > 26:
             return self.leaf(ty, lazy_feed)
         self.size += 1
-        k = weighted(r, [('and', 3), ('or', 3), ('if', 3), ('typed', 7)])
+        k = weighted(r, [('and', 3), ('or', 3), ('if', 3), ('typed', 7), ('lazymut', 0.8 if ty in ('list', 'any', 'num', 'str') else 0)])
+        if k == 'lazymut':
+            # the right operand changes the truth value of the left one (a one-element list emptied, an empty one filled):
+            # the deciding operand was decided when it was evaluated, once
+            self.kinds.add('lazy_right_changes_left')
+            self.n += 1
+            if r.random() < 0.5:
+                return ['bin', 'and', ['name', 'J'], ['call', 'pop', [['call', 't', [['num', str(self.n)], ['name', 'J']], 'plain']], 'plain']]
+            return ['bin', 'or', ['name', 'E'], ['call', 'push', [['call', 't', [['num', str(self.n)], ['name', 'E']], 'plain'], ['num', '1']], 'plain']]
         if k == 'and' or k == 'or':
             self.kinds.add('lazy_' + k)
             return ['bin', k, self.e(ty if r.random() < 0.5 else 'num', d - 1, True), self.e(ty, d - 1, lazy_feed)]
@@ -295,7 +303,9 @@ def generate(seed, tier):
         ops.append(op)
         if rf.random() < 0.35:
             ops.append(dict(op, probe_fault=rf.randint(1, min(nprobes + 1, 12))))
-    world = {'names': {'L': [{'d': '1'}, {'d': '2'}, {'d': '3'}, 4], 'M': [10, 20], 'cnt': {'d': '5'}}, 'host_fns': ['t']}
+            if rf.random() < 0.3:
+                ops[-1]['probe_fault_kind'] = 'stop'      # the host function raises StopIteration (an iterator behind it ran dry)
+    world = {'names': {'L': [{'d': '1'}, {'d': '2'}, {'d': '3'}, 4], 'M': [10, 20], 'cnt': {'d': '5'}, 'J': ['a'], 'E': []}, 'host_fns': ['t']}
     return {'world': world, 'ops': ops, 'kinds': sorted(sh.kinds), 'n_probes': sh.n}
 
 
